@@ -1,5 +1,6 @@
 // C19 — the memoizing store is observationally identical to the store it wraps
-// (SEQUENTIAL part; the concurrent interleavings are explored by another engine).
+// (SEQUENTIAL part; the concurrent interleavings are explored by cmd/c19c on the
+// vsched engine, started and merged by concurrent.go).
 //
 // Three handles of one graph are obtained through memoization.New(memory store):
 // h1 = NewGraph, h2 and h3 = Graph. Operations: add/remove one of three triples
@@ -627,13 +628,15 @@ func main() {
 		}
 		return true, fmt.Sprintf("ops=%v: read #%d of op %d equals the wrapped graph's answer", c.Ops, c.Read, c.FailOp)
 	})
+	r.Replayer("sched", replayConcurrent) // cases of the concurrent part (cmd/c19c, see concurrent.go)
 	r.MaybeReplay()
+	conc := startConcurrent(r) // runs next to the sequential search, collected before Finish
 	if err := lookup.SelfTest(); err != nil {
 		common.Machinery("MODEL-INVALID: %v", err)
 	}
 	lookup.StartWatchdog(3 * time.Minute)
 	stopProfile := lookup.MaybeProfile()
-	r.Assume("SEQUENTIAL part only: one goroutine issues all operations; reads that overlap a write (the second sentence of the property, 'also when reads run concurrently with the write') are explored by the schedule-enumerating engine (vsched), not by this check")
+	r.Assume("SEQUENTIAL part (the keys states/transitions/traces/evaluations): one goroutine issues all operations; reads that overlap a write (the second sentence of the property, 'also when reads run concurrently with the write') are explored by the CONCURRENT part on the schedule-enumerating engine (cmd/c19c, key concurrent_part)")
 	r.Assume("the oracle is the wrapped memory graph itself (obtained from the same memory store), asked the same call at that moment; its answers are reused until the next write (reads do not write)")
 	r.Assume("model states (content, per handle the cache-filling events since its last write; h2/h3 interchangeable) are used only to deduplicate; every state's shortest path is replayed on a fresh store, wrapper and handles")
 	r.Assume("answers are compared as sequences of structural keys, error text and channel-closed flag")
@@ -827,6 +830,7 @@ func main() {
 	r.Set("option_values", nopts)
 	r.Set("distinct_nontrivial", repeated)
 	r.Set("repeated_reads_after_write_through_other_handle", repeatedStale)
+	conc.collect(r)
 	r.Set("rule", "BFS over (content, per-handle cache-filling events) with ops {add,remove} x 3 triples x 3 handles, sweep / reverse sweep x 3 handles, priming reads x 3 handles; every transition out of every state replayed on a fresh store+wrapper (path + operation), followed by a sweep through every handle when the target state is new, through the written handle otherwise; nontrivial = a checked read that the same handle had already issued since its own last write (the memoizer may answer it from its cache); each is a distinct (trace, position)")
 	r.Finish()
 }
